@@ -1,4 +1,5 @@
 import SlicecVerif.Drv.C10
+import SlicecVerif.Drv.C11
 
 open Slicec Slicec.Drv
 
@@ -12,6 +13,7 @@ def main (args : List String) : IO UInt32 := do
     let s := seed.toNat?.getD 1
     match prop with
     | "C10" => genC10 t s o
+    | "C11" => genC11 t s o
     | _ => IO.eprintln s!"unknown property {prop}"; return 2
     o.flush
     return 0
